@@ -57,6 +57,13 @@ type Lexer struct {
 
 func (lex *Lexer) Lex(lval *yySymType) int {
 	return lex.DoLex(func(tok ybase.Token) {
+		if tok.Type() == METADATA {
+			// spaces in front of a key or value are skipped, those behind it
+			// are ignored too: {key =Am} is {key=Am}
+			if v := strings.TrimRightFunc(tok.Value(), unicode.IsSpace); v != tok.Value() {
+				tok = ybase.NewToken(tok.Type(), v, tok.Start(), tok.End())
+			}
+		}
 		lval.token = tok
 	})
 }
